@@ -94,4 +94,3 @@ func VerifH_C16_SchemaKey_Injective() {
 	verifAssert(k3 != k1, "C16:labels-only-differs-from-labels-and-attributes")
 	verifReach("end")
 }
-
